@@ -6,7 +6,7 @@
      R <gid> <args> <dry 0|1> <key,key,..>   generate_all of generator gid with per-call argument combination <args>, in this order
      C                                    clear caches
      X <resets 0|1> <lel_shared 0|1> <maxsize|-> <markers 0|1>   run the accumulated history in a new interpreter, print
-                                          `E <cfg> <key> <clean 0|1> <text> <template path|->` per file, `S <hist_solid 0|1>`, `END`; forget U/T/history *)
+                                          `E <cfg> <key> <clean 0|1> <text> <template path|->` per file, `END`; forget U/T/history *)
 open Model
 
 let rec pos_of_int n = if n = 1 then XH else if n land 1 = 0 then XO (pos_of_int (n lsr 1)) else XI (pos_of_int (n lsr 1))
@@ -57,7 +57,7 @@ let () =
           List.iter (fun e -> print_string ("E " ^ string_of_int (int_of_n e.e_cfg) ^ " " ^ show e.e_key ^ " "
                                             ^ (if e.e_clean then "1" else "0") ^ " " ^ show e.e_text ^ " "
                                             ^ (match e.e_tmpl with Some p -> show p | None -> "-") ^ "\n")) es;
-          print_string ("S " ^ (if solid_table !ct !u (mk = "1") !tab !h then "1" else "0") ^ "\nEND\n");
+          print_string "END\n";
           u := []; tab := []; h := []; ct := []
         | [] -> ()
         | _ -> print_string "ERR bad line\n"
